@@ -175,9 +175,10 @@ def newName (labels : List Label) : Outcome Name :=
 
 def validName (n : Name) : Prop := newName n = .ok n
 
-/-- `chunks(p, n)` of requester/dns.go -/
+/-- `chunks(p, n)` of requester/dns.go (only ever called with `n = 63`; with `n = 0` the Go loop would
+not terminate, the model returns no chunk) -/
 def chunks (p : Bytes) (n : Nat) : List Bytes :=
-  if _h : p.length = 0 ∨ n = 0 then (if p.length = 0 then [] else [p])  -- n = 0 would loop forever in Go; never called so
+  if _h : p.length = 0 ∨ n = 0 then []
   else p.take n :: chunks (p.drop n) n
 termination_by p.length
 decreasing_by simp [List.length_drop]; omega
